@@ -286,9 +286,49 @@ def independence(u, label, runs, is_input, mk_cex, sample=False, is_ref=None):
                 phi = z3.And(*eqs) if eqs else z3.BoolVal(True)
             name = "%s[%s|%s]" % (label, tag, tag2)
             hyps = list(H) + list(H2)
-            u.prove(name, phi, hyps, mk_cex(i, j, hyps, phi), abstract=True,
-                    sample=sample and i == 0 and j == 0)
+            ok = prove_fast(u, name, phi, hyps, mk_cex(i, j, hyps, phi),
+                            sample=sample and i == 0 and j == 0)
+            if not ok and any(c.get("reproduced") and c.get("obligation") == name for c in u.r["cex"]):
+                # one replayed witness of history dependence per unit is enough
+                u.r["skipped_after_violation"] = u.r.get("skipped_after_violation", 0) + 1
+                return n_state
     return n_state
+
+
+def prove_fast(u, name, phi, hyps, on_cex, sample=False):
+    """Unit.prove, except that a model of the UF-abstracted query is replayed
+    first: the replay on the real code is the judge of a counterexample, so a
+    witness found on the abstraction is as good as one found on the full
+    query; only when it does not reproduce is the full query solved."""
+    fresh = [c for c in u.r["cex"] if c.get("reproduced")]
+    if len(fresh) >= u.max_cex or u.r["unknown"] >= u.max_unknown:
+        return u.prove(name, phi, hyps, on_cex, abstract=True)
+    neg = z3.Not(phi)
+    # no UF axioms here: fewer hypotheses, so unsat is still a proof; they are
+    # only added (by Unit.prove) when a witness of this query does not replay
+    r, m, _s = u.solve(symx.abstract_ufs(list(hyps) + [neg]), timeout_ms=min(u.timeout_ms, 20000))
+    if r == "unsat":
+        u.r["obligations"] += 1
+        u.r["discharged"] += 1
+        if sample and len(u.r["samples"]) < 3:
+            sol = z3.Solver()
+            sol.add(*(list(hyps) + [neg]))
+            txt = sol.to_smt2()
+            u.sample({"obligation": name, "smt2_head": txt[:1200], "smt2_bytes": len(txt)})
+        return True
+    if r == "sat":
+        try:
+            info = dict(on_cex(m))
+        except Exception:
+            info = {"reproduced": False}
+        if info.get("reproduced"):
+            info.pop("block", None)
+            info["obligation"] = name
+            u.r["obligations"] += 1
+            u.r["cex"].append(info)
+            return False
+    return u.prove(name, phi, hyps, on_cex, abstract=False)
+
 
 
 def _contradictory(ids, H2):
